@@ -113,6 +113,11 @@ def run(ctx):
     # a KILL call rejected by the master in the middle of a destroy's batch: the destroy must not report success
     sid[0] += 1
     scenarios.append(lc.recipe_kill_refused(sid[0]))
+    if not lc.dev_open(ctx, "Code_AllClaimedCrashes"):
+        # task reuse: a deployment that picked a kept task for reuse and then fails (its other role cannot be placed) leaves
+        # nothing of its own behind - the task is not its own at any time before the deployment succeeded
+        sid[0] += 1
+        scenarios.append(lc.recipe_failed_claimer(sid[0], prefix="d"))
     if lc.dev_open(ctx, "Code_ClaimNotAtomic"):
         # a destroy that cannot be honoured (HonestError): after the double claim (finding of C04, task reuse) the release of
         # the task the other environment took over is refused, the forced teardown fails and the destroy must say so
